@@ -310,6 +310,18 @@ func CallBack(a int32) int32 { return fromMid(a) + 1 }
 var Keep = []interface{}{T.val, (*T).ptr, hidden, hidden2, blocking, viaHelper, (*W).wait}
 `,
 		"impl/stub.s": "// allows body-less declarations\n",
+		// a package that declares no directive itself and whose functions are reachable only
+		// through the linknames of other packages
+		"bare/bare.go": `package bare
+
+import "prog/lib"
+
+type B struct{ N int32 }
+
+func only(a int32) int32        { lib.Tr("bare.only", 0); return a + 7 }
+func (b B) val(a int32) int32   { lib.Tr("bare.B.val", 0); return b.N + a }
+func (b *B) ptr(a int32) int32  { lib.Tr("bare.(*B).ptr", 0); b.N += a; return b.N }
+`,
 		"mid/stub.s": "// allows body-less declarations\n",
 		"mid/mid.go": `package mid
 
@@ -344,6 +356,7 @@ var Keep = exportedToImpl
 import (
 	_ "unsafe"
 
+	"prog/bare"
 	"prog/impl"
 	"prog/lib"
 	"prog/mid"
@@ -363,6 +376,15 @@ func tptr(t *impl.T, a int32) int32
 
 //go:linkname blocking prog/impl.blocking
 func blocking(a int32) int32
+
+//go:linkname bareOnly prog/bare.only
+func bareOnly(a int32) int32
+
+//go:linkname bareVal prog/bare.B.val
+func bareVal(b bare.B, a int32) int32
+
+//go:linkname barePtr prog/bare.(*B).ptr
+func barePtr(b *bare.B, a int32) int32
 
 //go:linkname viaHelper prog/impl.viaHelper
 func viaHelper(a int32) int32
@@ -387,6 +409,8 @@ func main() {
 	println("L " + lib.Itoa(int(earlyBlocking)) + " " + lib.Itoa(int(viaHelper(2))) + " " + lib.Itoa(int(wwait(w, 3))) + " " + lib.Itoa(int(w.N)))
 	println("L " + lib.Itoa(int(impl.CallBack(2))) + " " + lib.Itoa(int(mid.Use(3))))
 	println("L " + lib.Itoa(int(mid.Exported(2))) + " " + lib.Itoa(int(mid.CallMain(5))))
+	bb := bare.B{N: 2}
+	println("L " + lib.Itoa(int(bareOnly(1))) + " " + lib.Itoa(int(bareVal(bb, 3))) + " " + lib.Itoa(int(barePtr(&bb, 4))) + " " + lib.Itoa(int(bb.N)))
 	f := hidden
 	g := tptr
 	println("L " + lib.Itoa(int(f(3))) + " " + lib.Itoa(int(g(&t, 1))))
